@@ -291,6 +291,10 @@ func (re *Regexp) forEachStringMatch(s string, n int, f func(*regexp2.Match)) {
 		if m.RuneLength != 0 || m.RuneIndex != prevEnd {
 			f(m)
 			prevEnd = m.RuneIndex + m.RuneLength
+			if re.re.RightToLeft() {
+				// a right-to-left scan goes on at the left end of the match
+				prevEnd = m.RuneIndex
+			}
 			if n > 0 {
 				n--
 				if n == 0 {
